@@ -70,7 +70,7 @@ func (self *Compiler) compileStmt(node ast.AnalyzedStatement) {
 		node := node.(ast.AnalyzedReturnStatement)
 		// If there is a return-expression, insert it
 		if node.ReturnValue != nil {
-			self.compileExpr(node.ReturnValue)
+			self.compileExprWant(node.ReturnValue, self.fnReturnsValue)
 		}
 
 		self.popTryLabels(self.tryDepth, node.Span())
@@ -95,7 +95,7 @@ func (self *Compiler) compileStmt(node ast.AnalyzedStatement) {
 		})
 		defer self.popLoop()
 
-		self.compileBlock(node.Body, true)
+		self.compileBlockWant(node.Body, true, false)
 		self.insert(newOneStringInstruction(Opcode_Jump, head_label), node.Span())
 		self.insert(newOneStringInstruction(Opcode_Label, after_label), node.Span())
 	case ast.WhileStatementKind:
@@ -116,7 +116,7 @@ func (self *Compiler) compileStmt(node ast.AnalyzedStatement) {
 		})
 		defer self.popLoop()
 
-		self.compileBlock(node.Body, true)
+		self.compileBlockWant(node.Body, true, false)
 		self.insert(newOneStringInstruction(Opcode_Jump, head_label), node.Range)
 
 		self.insert(newOneStringInstruction(Opcode_Label, after_label), node.Range)
@@ -165,7 +165,7 @@ func (self *Compiler) compileStmt(node ast.AnalyzedStatement) {
 		})
 		defer self.popLoop()
 
-		self.compileBlock(node.Body, false)
+		self.compileBlockWant(node.Body, false, false)
 
 		// Update iterator
 		self.insert(newOneStringInstruction(Opcode_Label, update_label), node.Range)
@@ -176,11 +176,8 @@ func (self *Compiler) compileStmt(node ast.AnalyzedStatement) {
 		self.insert(newOneStringInstruction(Opcode_Label, after_label), node.Range)
 	case ast.ExpressionStatementKind:
 		node := node.(ast.AnalyzedExpressionStatement)
-		self.compileExpr(node.Expression)
-		if leavesValue(node.Expression) {
-			// Drop every value that the expression might generate
-			self.insert(newPrimitiveInstruction(Opcode_Drop), node.Range)
-		}
+		// Drop every value that the expression might generate
+		self.compileExprWant(node.Expression, false)
 	default:
 		panic("Unreachable")
 	}
@@ -192,7 +189,7 @@ func (self *Compiler) compileStmt(node ast.AnalyzedStatement) {
 
 func (self *Compiler) compileLetStmt(node ast.AnalyzedLetStatement, isGlobal bool) (mangled string) {
 	// Push value onto the stack
-	self.compileExpr(node.Expression)
+	self.compileExprWant(node.Expression, true)
 
 	// Handle deep casts if required
 	if node.NeedsRuntimeTypeValidation {
@@ -214,8 +211,9 @@ func (self *Compiler) compileLetStmt(node ast.AnalyzedLetStatement, isGlobal boo
 }
 
 // Whether the compiled expression leaves a value on the operand stack.
-// Expressions of type `null` normally leave nothing (calls, assignments, `if` without `else`), but a `null` literal is
-// pushed like any other literal, also when it is what a block or branch evaluates to.
+// Expressions of type `null` normally leave nothing (calls, assignments), but a `null` literal is pushed like any other
+// literal, also when it is what a block evaluates to. The branches of a null-typed `if`, `match` or `try` are
+// compiled so that none of them leaves a value (see compileBlockWant): whichever way is taken, the stack is the same.
 func leavesValue(node ast.AnalyzedExpression) bool {
 	if node.Type().Kind() != ast.NullTypeKind {
 		return true
@@ -229,13 +227,37 @@ func leavesValue(node ast.AnalyzedExpression) bool {
 	case ast.BlockExpressionKind:
 		block := node.(ast.AnalyzedBlockExpression).Block
 		return block.Expression != nil && leavesValue(block.Expression)
-	case ast.IfExpressionKind:
-		ifExpr := node.(ast.AnalyzedIfExpression)
-		return ifExpr.ElseBlock != nil && ifExpr.ThenBlock.Expression != nil && leavesValue(ifExpr.ThenBlock.Expression)
-	case ast.TryExpressionKind:
-		tryBlock := node.(ast.AnalyzedTryExpression).TryBlock
-		return tryBlock.Expression != nil && leavesValue(tryBlock.Expression)
 	default:
 		return false
+	}
+}
+
+// Compiles an expression whose value is needed (`want`) or not: a value which is left but not wanted is dropped,
+// a wanted value which a null-typed expression does not leave is supplied.
+func (self *Compiler) compileExprWant(node ast.AnalyzedExpression, want bool) {
+	self.compileExpr(node)
+	leaves := leavesValue(node)
+	if leaves && !want {
+		self.insert(newPrimitiveInstruction(Opcode_Drop), node.Span())
+	} else if !leaves && want {
+		self.insert(newValueInstruction(Opcode_Copy_Push, *value.NewValueNull()), node.Span())
+	}
+}
+
+// Like compileBlock, for a block whose value is needed or not.
+func (self *Compiler) compileBlockWant(node ast.AnalyzedBlock, pushScope bool, want bool) {
+	if pushScope {
+		self.pushScope()
+		defer self.popScope()
+	}
+
+	for _, stmt := range node.Statements {
+		self.compileStmt(stmt)
+	}
+
+	if node.Expression != nil {
+		self.compileExprWant(node.Expression, want)
+	} else if want {
+		self.insert(newValueInstruction(Opcode_Copy_Push, *value.NewValueNull()), node.Range)
 	}
 }
